@@ -187,6 +187,24 @@ def appears(name, lang, content):
     return False
 
 
+def corpus_toggle_case(args):
+    """One upstream corpus configuration generated with the Python / Lua wrappers forced on and forced off."""
+    workdir, repo, cfg = args
+    from .. import corpus
+    trees = {}
+    for tag, extra in (("on", ["--option", "wrap_python=true", "--option", "wrap_lua=true"]), ("off", ["--option", "wrap_python=false", "--option", "wrap_lua=false"]),
+                       ("py", ["--option", "wrap_python=true", "--option", "wrap_lua=false"])):
+        out = os.path.join(workdir, tag, "out")
+        r = corpus.generate(repo, cfg, out, extra)
+        if r.status != "ok":
+            trees[tag] = None
+            continue
+        t = isolate.read_tree(out)
+        trees[tag] = {k: v for k, v in t.items() if kind_of(k) in ("c", "fortran")}
+    shutil.rmtree(workdir, ignore_errors=True)
+    return cfg[0], trees
+
+
 def run(ctx):
     quick = ctx.tier == "quick"
     W = ctx.workers
@@ -312,8 +330,24 @@ def run(ctx):
             if seen != libdefault:
                 ctx.violation("decl-flag sibling %s" % lang, "sibling deltafour (no override, library default %s) %s in the %s output; flags %s" % (
                     libdefault, "appears" if seen else "does not appear", lang, dict(zip(names, flags))), {"tag": tag})
-    ctx.count(states=len(res), transitions=len(res), validated=len(res))
-    ctx.nontrivial_n(len(res))
+    # ---- (d) the upstream corpus: C and Fortran files must not change with the Python / Lua wrappers
+    from .. import corpus
+    ccfgs = corpus.configs(ctx.repo)
+    if quick:
+        ccfgs = ccfgs[::3]
+    cres = isolate.pmap(corpus_toggle_case, [(os.path.join(wd, "corp%d" % i), ctx.repo, c) for i, c in enumerate(ccfgs)], W)
+    ncmp = 0
+    for name, trees in cres:
+        ok = [t for t in trees if trees[t] is not None]
+        for a, b in itertools.combinations(ok, 2):
+            ncmp += 1
+            if trees[a] != trees[b]:
+                ctx.violation("corpus cf-changes-with-py-lua %s" % name, "corpus configuration %s: C/Fortran files differ between Python/Lua wrappers %s and %s:\n%s" % (
+                    name, a, b, "\n".join(isolate.diff_trees(trees[a], trees[b], 2))), {"kind": "corpus", "config": name})
+                break
+    ctx.part("corpus_toggles", configurations=len(cres), comparisons=ncmp)
+    ctx.count(states=len(res) + len(cres), transitions=len(res) + ncmp, validated=len(res) + ncmp)
+    ctx.nontrivial_n(len(res) + len(cres))
     ctx.part("library_combinations", runs=sum(1 for t in meta if t[0] == "lib"), descriptions=list(DESCS))
     ctx.part("declaration_overrides", runs=sum(1 for t in meta if t[0] == "decl"))
     ctx.part("directory_assignments", runs=sum(1 for t in meta if t[0] == "dirs"), of=243)
